@@ -181,7 +181,7 @@ def gen_step(rng):
     n = rng.choice(NAMES)
     arg = None
     if op in ("defl", "defn", "redefl", "redefn"):
-        arg = rng.choice([rng.randrange(0, 300), n, rng.choice(NAMES), rng.choice([0x12345, 70000, 0x7FFFFFFF, 65536, 0xFFFF])])
+        arg = rng.choice([rng.randrange(0, 300), 5, n, rng.choice(NAMES), rng.choice([0x12345, 70000, 0x7FFFFFFF, 65536, 0xFFFF])])     # 5: values repeat, so a second definition often restates the value the name already has
     if op == "usepair":
         arg = rng.choice(NAMES)
     if op == "struct":
@@ -219,6 +219,12 @@ def run(ck):
              [("defn", "st1.ll1", 7), ("use", "st1.ll1", None), ("struct", "st1", 1), ("use", "st1.ll1", None)],
              [("defn", "st1.ll1", 7), ("struct", "st1", 0)], [("defn", "st1.ll1", 7), ("struct", "st1", 2)],
              [("use", "gg2", None), ("defn", "gg2", 9), ("use", "gg2", None), ("struct", "gg2", 3), ("use", "gg2", None)],
+             # a second plain definition that restates the value the name already has is a second definition all the same
+             [("defn", "gg1", 4), ("defn", "gg1", 4), ("use", "gg1", None)], [("defl", "gg1", 4), ("defn", "gg1", 4)],
+             [("defn", "gg1", 4), ("defl", "gg1", 4)], [("defl", ".ll1", 9), ("defn", ".ll1", 9), ("use", ".ll1", None)],
+             [("defn", "gg1", 4), ("redefn", "gg1", 6), ("defn", "gg1", 6)], [("label", "gg1", None), ("defn", "gg1", 0x100)],
+             [("label", "gg1", None), ("defl", "gg1", 0x100)], [("defn", "gg2", 5), ("defn", "gg1", "gg2"), ("defn", "gg1", 6)],
+             [("defn", "gg2", 5), ("defn", "gg1", 6), ("defn", "gg1", "gg2")], [("defl", "gg1", 0x12345), ("defl", "gg1", 0x12345)],
              [("label", "gg1", None), ("struct", "gg1", 1)], [("struct", "st1", 1), ("struct", "st1", 1)], [("struct", "st1", 1), ("defn", "st1", 4)]]
     L = 4 if thorough else 3
     for n in range(1, L + 1):
